@@ -54,6 +54,10 @@ FALLIBLE = {
 }
 
 
+# constructors that raise on invalid input (ErrorInitIndexNonUnique / ValueError on duplicate labels)
+VALIDATING_CONSTRUCTORS = ('AutoMap', 'FrozenAutoMap')
+
+
 class _Mut(flow.Client):
     '''Path-wise ("worlds") sets of mutated components + events.  State: frozenset of frozensets.'''
     for_at_least_once = True
@@ -109,6 +113,11 @@ class _Mut(flow.Client):
         return st
 
     def on_expr(self, node, st):
+        # a constructor that validates its input (the label map rejects duplicates: 1.0 == 1 collides with an existing position) is a raise point
+        if isinstance(node, ast.Call) and call_name(node) in VALIDATING_CONSTRUCTORS:
+            m = self.may(st)
+            if m:
+                self.raises_after.append((node, m))
         if isinstance(node, ast.Call) and isinstance(node.func, ast.Attribute):
             fn = node.func
             m = fn.attr
@@ -223,7 +232,7 @@ def d_atomic(ctx: Ctx, only: tp.Optional[tp.Sequence[str]] = None) -> None:
     D2 = 'D2.validate-before-mutate'
     ctx.rule(D1, 'in every grow-only mutator the state components that must move together are all updated on every '
              'path from the first mutation to a normal exit (counting loops over a positive count run at least once)', floor=10 if only is None else (5 if len(only) > 1 else 1))
-    ctx.rule(D2, 'after the first mutation of a grow-only mutator nothing can raise explicitly: no raise/assert statement, '
+    ctx.rule(D2, 'after the first mutation of a grow-only mutator nothing can raise explicitly: no raise/assert statement, no construction of a label map (AutoMap rejects duplicates), '
              'no per-item loop over a fallible mutator, and every fallible second mutation is pre-validated '
              '(duplicate check before the first mutation, row count established for the block)', floor=14 if only is None else (6 if len(only) > 1 else 2))
     prog = ctx.prog
